@@ -13,12 +13,12 @@ import (
 // clamped to len(p), to the remaining bytes and to the next scripted fail/cancel offset).
 var chunkStyles = []string{
 	"1", "7", "511", "512", "513", "32767", "32768", "32769", // fixed sizes (32KiB±1 around io.Copy's buffer)
-	"fill",          // as much as the caller's buffer takes
-	"cycle",         // 1,7,511,512,513,32767,32768,32769,...
-	"random",        // PRNG sizes, a (0,nil) read with probability 1/16 (never twice in a row)
-	"eof-with-data", // fill; the last chunk is returned together with io.EOF (legal per io.Reader)
+	"fill",           // as much as the caller's buffer takes
+	"cycle",          // 1,7,511,512,513,32767,32768,32769,...
+	"random",         // PRNG sizes, a (0,nil) read with probability 1/16 (never twice in a row)
+	"eof-with-data",  // fill; the last chunk is returned together with io.EOF (legal per io.Reader)
 	"zero-sprinkled", // 512-byte chunks, a (0,nil) read on every 5th call (never twice in a row)
-	"bytes.Reader",  // uninstrumented standard readers (ok steps only)
+	"bytes.Reader",   // uninstrumented standard readers (ok steps only)
 	"strings.Reader",
 }
 
